@@ -159,6 +159,19 @@ def gen_cases(tier, seed):
     from ..gen import sprinkle
 
     sprinkle(cases, seed)
+    # one path that CHANGES ITS FILE TYPE between two downloads of one process (a FIFO first, an ordinary file with previous content then)
+    cfg0 = dict(multipart_threshold=16, multipart_chunksize=8, io_chunksize=4, max_request_concurrency=2, num_download_attempts=2)
+    for i in range(6 if quick else 40):
+        name = f'vf-reuse-{seed}-{i}-{rng.randrange(1 << 30)}'
+        size = rng.choice([10, 20])
+        first = {'seed': rng.randrange(1 << 30), 'config': dict(cfg0), 'tmpdir_name': name, 'family': 'name-changes-type',
+                 'transfers': [{'kind': 'download', 'dst': 'fifo', 'size': rng.choice([5, 20]), 'dest_name': 'out'}]}
+        f = rng.choice([{'at': f't0/s3:GetObject:{8 if size >= 16 else "all"}#0', 'phase': 'body', 'bytes': 3, 'kind': 'exc'},
+                        {'at': 't0/fs:write#1', 'phase': 'before', 'kind': 'oserror'}, None])
+        second = {'seed': rng.randrange(1 << 30), 'config': dict(cfg0, num_download_attempts=1), 'tmpdir_name': name, 'dirwatch': True, 'family': 'name-changes-type',
+                  'transfers': [{'kind': 'download', 'dst': 'path', 'size': size, 'preexisting': True, 'dest_name': 'out'}],
+                  'plan': {'faults': [dict(f, tag='FAULT-second')]} if f else {}}
+        cases.append({'first': first, 'second': second, 'family': 'name-changes-type'})
     return cases
 
 
@@ -185,4 +198,12 @@ def evaluate(obs):
 
 
 def run_case(case):
+    if case.get('first') is not None:
+        # two scenarios, one after the other in this process, over the SAME path strings: in the first the destination name is a special
+        # file (a FIFO), in the second an ordinary file stands under that name.  What the library learnt about a NAME in the first must
+        # not be applied to the file that stands there in the second.
+        r1 = e2e.run_with(case['first'], evaluate)
+        if r1.get('verdict') != 'held':
+            return r1
+        return e2e.run_with(case['second'], evaluate)
     return e2e.run_with(case, evaluate)
